@@ -20,6 +20,7 @@ CONSTANTS NAtoms,      \* atoms 0..NAtoms-1
           ChildOps,    \* operations of dict children ("deq","dle","dge")
           WrongOps,    \* operations used as a second, conflicting operation
           ChgOK,       \* programs may re-evaluate a call with a changed hand-written argument
+          HostileOK,   \* programs may raise exceptions of their own and compare with values of incomparable types
           NSites, NTests, MaxStmts,
           MaxRuns,     \* sessions per behaviour (mode mc)
           MaxSrcLen,   \* entries of an "in"/dict source
@@ -42,16 +43,21 @@ OwnStmts(i, o) ==
   ELSE [site : {i}, assert : BOOLEAN, op : {o}, k : {0}, x : Atoms]
 WrongStmts(i, o) == {[site |-> i, assert |-> FALSE, op |-> w, k |-> 0, x |-> 0] : w \in {w \in WrongOps : KindOfStmtOp(w) # o}}
 ChgStmts(i) == IF ChgOK THEN {[site |-> i, assert |-> FALSE, op |-> "chg", k |-> 0, x |-> 0]} ELSE {}
-Stmts(ops) == UNION {OwnStmts(i, ops[i]) \cup (IF ops[i] = "none" THEN {} ELSE WrongStmts(i, ops[i]) \cup ChgStmts(i)) : i \in DOMAIN ops}
-IsWrong(ops, s) == s.op \notin {"none", "chg"} /\ KindOfStmtOp(s.op) # ops[s.site]
+HostileStmts(i, o) == IF ~HostileOK THEN {}
+                      ELSE {[site |-> i, assert |-> FALSE, op |-> "raise", k |-> 0, x |-> 0]}
+                           \cup (IF o \in {"le", "ge"} THEN {[site |-> i, assert |-> TRUE, op |-> o \o "bot", k |-> 0, x |-> 0]} ELSE {})
+Stmts(ops) == UNION {OwnStmts(i, ops[i]) \cup (IF ops[i] = "none" THEN {} ELSE WrongStmts(i, ops[i]) \cup ChgStmts(i) \cup HostileStmts(i, ops[i])) : i \in DOMAIN ops}
+Special == {"none", "chg", "raise", "lebot", "gebot"}
+IsWrong(ops, s) == s.op \notin Special /\ KindOfStmtOp(s.op) # ops[s.site]
 \* a conflicting operation is only used after an own operation of the same site in the same test
 ValidTest(ops, t) == \A j \in DOMAIN t : (IsWrong(ops, t[j]) \/ t[j].op = "chg") =>
-                        \E i \in 1..(j - 1) : t[i].site = t[j].site /\ ~IsWrong(ops, t[i]) /\ t[i].op \notin {"none", "chg"}
+                        \E i \in 1..(j - 1) : t[i].site = t[j].site /\ ~IsWrong(ops, t[i]) /\ t[i].op \notin Special
 Tests(ops) == {t \in UNION {[1..m -> Stmts(ops)] : m \in 1..MaxStmts} : ValidTest(ops, t)}
 Progs(ops) == [1..NTests -> Tests(ops)]
 \* only a hand-written argument can change its value between evaluations
 ChgFits(ss, p) == \A t \in DOMAIN p : \A j \in DOMAIN p[t] :
-                     p[t][j].op = "chg" => (ss[p[t][j].site].def /\ \E e \in DOMAIN ss[p[t][j].site].e : ~ss[p[t][j].site].e[e].canon)
+                     /\ p[t][j].op = "chg" => (ss[p[t][j].site].def /\ \E e \in DOMAIN ss[p[t][j].site].e : ~ss[p[t][j].site].e[e].canon)
+                     /\ p[t][j].op \in {"lebot", "gebot"} => ss[p[t][j].site].def
 
 VARIABLES ops, srcs, prog, runs
 vars == <<ops, srcs, prog, runs>>
@@ -86,7 +92,7 @@ Spec == Init /\ [][Next]_vars
 (* ---------- what the properties talk about ---------- *)
 \* truth of statement s against the plain value of source src (src.def)
 HoldsStmt(s, src) ==
-  CASE s.op \in {"none", "chg"} -> TRUE
+  CASE s.op \in Special -> TRUE
     [] s.op \in ScalarOps -> HoldsScalar(s.op, src.e[1].v, s.x)
     [] s.op = "in" -> s.x \in Rng(ValsOf(src.e))
     [] OTHER -> HasKey(src.e, s.k) /\ HoldsScalar(CASE s.op = "deq" -> "eq" [] s.op = "dle" -> "le" [] s.op = "dge" -> "ge",
@@ -95,7 +101,7 @@ HoldsStmt(s, src) ==
 Exec(R) == {p \in (DOMAIN prog) \X (1..MaxStmts) : p[2] <= Len(R.tests[p[1]].res)}
 StmtAt(p) == prog[p[1]][p[2]]
 ResAt(R, p) == R.tests[p[1]].res[p[2]]
-OnSite(R, i) == {p \in Exec(R) : StmtAt(p).site = i /\ ResAt(R, p) \notin {"TE", "UE", "-"}}
+OnSite(R, i) == {p \in Exec(R) : StmtAt(p).site = i /\ ResAt(R, p) \notin {"TE", "UE", "EX", "-"}}
 \* a test that contradicts itself: one == snapshot (or one == child) compared with different values
 Contradictory(R, i) ==
    \E p, q \in OnSite(R, i) : /\ StmtAt(p).op \in {"eq", "deq"} /\ StmtAt(q).op = StmtAt(p).op
@@ -106,11 +112,13 @@ Before(q, p) == q[1] < p[1] \/ (q[1] = p[1] /\ q[2] < p[2])
 FirstOf(Q) == CHOOSE q \in Q : \A q2 \in Q : q = q2 \/ Before(q, q2)
 ExpectTE(R, p) ==
   LET s == StmtAt(p)
-      Q == {q \in Exec(R) : StmtAt(q).site = s.site /\ StmtAt(q).op \notin {"none", "chg"}}
+      Q == {q \in Exec(R) : StmtAt(q).site = s.site /\ StmtAt(q).op \notin {"none", "chg", "raise"}}
+      Kind(o) == IF o = "lebot" THEN "le" ELSE IF o = "gebot" THEN "ge" ELSE KindOfStmtOp(o)
       f == StmtAt(FirstOf(Q))
       QK == {q \in Q : KindOfStmtOp(StmtAt(q).op) = "dict" /\ StmtAt(q).k = s.k}
-  IN /\ s.op \notin {"none", "chg"}
-     /\ \/ KindOfStmtOp(s.op) # KindOfStmtOp(f.op)
+  IN /\ s.op \notin {"none", "chg", "raise"}
+     /\ \/ s.op \in {"lebot", "gebot"}
+        \/ Kind(s.op) # Kind(f.op)
         \/ KindOfStmtOp(s.op) = "dict" /\ s.op # StmtAt(FirstOf(QK)).op
 
 (* C07: a wrong or missing snapshot never yields a green test; a test whose snapshots all hold is
@@ -119,8 +127,8 @@ ExpectTE(R, p) ==
 C07 == \A F \in Fs : LET R == Run(srcs, prog, F) IN
          \A t \in DOMAIN prog :
             LET wrong == \E p \in Exec(R) : /\ p[1] = t
-                           /\ \/ ResAt(R, p) \in {"TE", "UE"}
-                              \/ StmtAt(p).op \notin {"none", "chg"} /\ (~srcs[StmtAt(p).site].def \/ ~HoldsStmt(StmtAt(p), srcs[StmtAt(p).site]))
+                           /\ \/ ResAt(R, p) \in {"TE", "UE", "EX"}
+                              \/ StmtAt(p).op \notin Special /\ (~srcs[StmtAt(p).site].def \/ ~HoldsStmt(StmtAt(p), srcs[StmtAt(p).site]))
                 contra == \E p \in Exec(R) : p[1] = t /\ Contradictory(R, StmtAt(p).site)
             IN /\ wrong => R.tests[t].failed
                /\ (R.tests[t].failed /\ ~contra) => wrong
@@ -128,6 +136,7 @@ C07 == \A F \in Fs : LET R == Run(srcs, prog, F) IN
 C06 == LET R == Run(srcs, prog, {}) IN
          \A p \in Exec(R) : LET s == StmtAt(p) IN
             IF ExpectTE(R, p) THEN ResAt(R, p) = "TE"
+            ELSE IF s.op = "raise" THEN ResAt(R, p) = "EX"
             ELSE IF s.op = "chg"       \* C14: a changed argument is a usage error (only hand-written parts can change)
                  THEN ResAt(R, p) = (IF srcs[s.site].def /\ \E j \in DOMAIN srcs[s.site].e : ~srcs[s.site].e[j].canon
                                      THEN "UE" ELSE "-")
@@ -177,7 +186,7 @@ C04inert == Run(srcs, prog, {}).srcs = srcs
 C08all == LET R1 == Run(srcs, prog, Cats) R2 == Run(R1.srcs, prog, {}) IN
             (\A i \in DOMAIN srcs : ~Contradictory(R1, i)) =>
                /\ AllPending(R2) = {}
-               /\ (~R2.rcfail \/ \E p \in Exec(R2) : ResAt(R2, p) \in {"TE", "UE"})    \* a test that raises by itself stays red
+               /\ (~R2.rcfail \/ \E p \in Exec(R2) : ResAt(R2, p) \in {"TE", "UE", "EX"})    \* a test that raises by itself stays red
 C08same == \A F \in Fs : LET R1 == Run(srcs, prog, F) IN Run(R1.srcs, prog, F).srcs = R1.srcs
 (* C09: approving one pending category per run, in any order, until nothing is pending *)
 RECURSIVE Finals(_, _)
